@@ -132,6 +132,9 @@ fn one(id: String, seed: u64, idx: u64, rng: &mut SplitMix64, sink: &mut Sink) {
         clusters: geo.clusters,
         root_entries: 0,
         status_off: 0x41,
+        reserved,
+        spf: geo.spf,
+        fats,
     };
     let mut cx = Ctx::new(id, "big", seed, vol, Cfg::new(true, false, ClockMode::Const));
     cx.step(Op::Raw(st.writes()));
